@@ -119,7 +119,8 @@ class native_stubs:
                 owner = getattr(owner, p)
             cur = owner.__dict__[parts[-1]]
             self.saved.append((owner, parts[-1], cur))
-            setattr(owner, parts[-1], property(spec) if isinstance(cur, property) else spec)
+            setattr(owner, parts[-1], property(spec) if isinstance(cur, property) else
+                    classmethod(spec) if isinstance(cur, classmethod) else spec)
             if len(parts) == 1:  # a module-level function: also every `from x import f` alias of it
                 import sys
                 for mname, m in list(sys.modules.items()):
